@@ -188,6 +188,21 @@ Example ex_oracle_rejects :
   /\ check_C10 [ESpawn 0 (Some 7%N) false true; EBegin 0; EWhere 7%N (Some (0, SStopped))] = false.
 Proof. repeat split; vm_compute; reflexivity. Qed.
 
+(* ... a REJECTED spawn (Send or thread-local API) with a side effect: the live holder is no
+   longer found / the name can be taken a second time; and a stale second release by a
+   predecessor (e.g. its status written back below Stopping by a late drain()) that hits the
+   successor which took the name while the predecessor was in post_stop *)
+Example ex_oracle_rejects_lost_entry :
+  check_C10 [ESpawn 0 (Some 7%N) false true; EPid 0; ESpawn 1 (Some 7%N) false false; EWhere 7%N None] = false
+  /\ check_C10 [ESpawn 0 (Some 7%N) false true; EPid 0; ESpawn 1 (Some 7%N) false false;
+                ESpawn 2 (Some 7%N) false true] = false
+  /\ check_C10 [ESpawn 0 (Some 7%N) false true; EPid 0; EBegin 0; EWhere 7%N None;
+                ESpawn 1 (Some 7%N) false true; EPid 1; EWhere 7%N (Some (1, SLive)); EWait 0;
+                EWhere 7%N None] = false
+  /\ check_C10 [ESpawn 0 (Some 7%N) false true; EPid 0; ESpawn 1 (Some 7%N) false false;
+                EWhere 7%N (Some (0, SLive)); ESpawn 2 (Some 7%N) false false] = true.
+Proof. repeat split; vm_compute; reflexivity. Qed.
+
 Print Assumptions C10_unique.
 Print Assumptions C10_one_winner.
 Print Assumptions C10_holder_is_lookup.
